@@ -2,6 +2,18 @@
 use crate::common::*;
 use crate::pkggen::*;
 
+/// the input through a temporary file and `PackageMetadata::open`: equal to what `parse` returned for the bytes?
+fn opened_equals(bytes: &[u8], m: &rpm::PackageMetadata) -> bool {
+    static N: std::sync::atomic::AtomicU64 = std::sync::atomic::AtomicU64::new(0);
+    let path = std::env::temp_dir().join(format!("rpmverif-c01-{}-{}.rpm", std::process::id(), N.fetch_add(1, std::sync::atomic::Ordering::Relaxed)));
+    if std::fs::write(&path, bytes).is_err() {
+        return false;
+    }
+    let r = rpm::PackageMetadata::open(&path);
+    let _ = std::fs::remove_file(&path);
+    matches!(r, Ok(ref o) if o == m)
+}
+
 /// observation for a package / metadata round trip
 fn roundtrip(bytes: &[u8], meta_only: bool) -> String {
     if meta_only {
@@ -17,7 +29,8 @@ fn roundtrip(bytes: &[u8], meta_only: bool) -> String {
             Ok(m2) => {
                 let mut w2 = Vec::new();
                 let _ = m2.write(&mut w2);
-                (m2 == m, w2 == w)
+                // `PackageMetadata::open` (file → BufReader → parse) on the same input must give the same value as `parse`
+                (m2 == m && opened_equals(bytes, &m), w2 == w)
             }
             Err(_) => (false, false),
         };
